@@ -202,6 +202,37 @@ def t_config(ctx, rng):
     check(ctx, 'config-canonical', case, back.to_bytes() == raw and len(raw) == 0x8000, 'same image', 'different', 'config save to_bytes(load(b)) != b')
 
 
+def t_config_blocks(ctx, rng):
+    """the typed accessors over a config save: what the setter stores, the getter returns (through bytes as well)"""
+    from pyctr.type.config.save import ConfigSaveReader
+    from pyctr.type.config.blocks import ConfigSaveBlockParser
+    alphabet = ['a', 'Z', '0', ' ', '\u00e9', '\u3042', '\uffff', '\U0001F600', '\U00010400']
+    units = rng.choice([0, 1, 5, 9, 10, 13, 14])          # the block holds 14 UTF-16 units; a full one has no terminator
+    name = ''
+    while True:
+        ch = rng.choice(alphabet)
+        if len((name + ch).encode('utf-16le')) // 2 > units:
+            break
+        name += ch
+    if rng.random() < 0.3 and units == 14:
+        name = name + 'x' * (14 - len(name.encode('utf-16le')) // 2)
+    offset = rng.choice([0, 1, (1 << 64) - 1, rng.getrandbits(64)])
+    case = dict(t='config-blocks', name=name, offset=offset)
+    ctx.case(case)
+    try:
+        p = ConfigSaveBlockParser(ConfigSaveReader())
+        p.username = name
+        p.user_time_offset = offset
+        got1 = (p.username, p.user_time_offset)
+        p2 = ConfigSaveBlockParser.load(io.BytesIO(p.save.to_bytes()))
+        got2 = (p2.username, p2.user_time_offset)
+    except Exception as ex:
+        check(ctx, 'config-blocks-raises', case, False, 'values', pyenv.errname(ex), 'typed config accessors raised')
+        return
+    check(ctx, 'config-blocks-roundtrip', case, got1 == (name, offset) and got2 == (name, offset), repr((name, offset))[:80], repr(got1 if got1 != (name, offset) else got2)[:80],
+          'config save accessor: the value read back is not the value set')
+
+
 def t_seeddb(ctx, rng):
     from pyctr.crypto import seeddb
     n = rng.randrange(0, 12)
@@ -239,6 +270,21 @@ def t_seeddb(ctx, rng):
             seeddb._seeds.update(back)
             ctx.stat('seeddb_model')
         check(ctx, 'seeddb-roundtrip', case, back == db, len(db), len(back), 'seed DB load(save(db)) != db')
+        if db:
+            # loading is an update: what the file says replaces what was in memory for the same title id, the rest stays
+            seeddb._seeds.clear()
+            stale = {k: bytes(b ^ 0xFF for b in v) for k, v in list(db.items())[::2]}
+            extra_id = next(i for i in range(1 << 20) if i not in db)
+            stale[extra_id] = pyenv.rbytes(rng, 16)
+            for k, v in stale.items():
+                seeddb.add_seed(k, v)
+            seeddb.load_seeddb(io.BytesIO(raw))
+            want = dict(stale)
+            want.update(db)
+            check(ctx, 'seeddb-load-updates', case, dict(seeddb._seeds) == want, 'the seeds of the file, plus the untouched ones', 'other seeds',
+                  'loading a seed DB over seeds already in memory does not give the file\'s seeds for its title ids')
+            seeddb._seeds.clear()
+            seeddb._seeds.update(back)
         out2 = io.BytesIO()
         seeddb.save_seeddb(out2)
         check(ctx, 'seeddb-canonical', case, out2.getvalue() == raw and len(raw) == 0x10 + 0x20 * len(db), len(raw), len(out2.getvalue()), 'seed DB save(load(img)) != img')
@@ -381,11 +427,11 @@ def model(line):
     return MR[0].ask(line) if MR[0] is not None else None
 
 
-TESTS = [t_apptitle, t_smdh, t_config, t_seeddb, t_ncsd, t_partdesc, t_lzss]
+TESTS = [t_apptitle, t_smdh, t_config, t_config_blocks, t_seeddb, t_ncsd, t_partdesc, t_lzss]
 
 
 def run_all(ctx, rng, n):
-    weights = {t_apptitle: 4, t_smdh: 1, t_config: 2, t_seeddb: 2, t_ncsd: 2, t_partdesc: 3, t_lzss: 3}
+    weights = {t_apptitle: 4, t_smdh: 1, t_config: 2, t_config_blocks: 2, t_seeddb: 2, t_ncsd: 2, t_partdesc: 3, t_lzss: 3}
     pool = [t for t in TESTS for _ in range(weights[t])]
     for _ in range(n):
         t = rng.choice(pool)
